@@ -3,6 +3,9 @@
 #include <string_view>
 #include <unordered_map>
 #include <functional>
+#include <atomic>
+#include <mutex>
+#include <shared_mutex>
 
 
 
@@ -30,6 +33,11 @@ namespace sqf
         protected:
             unsigned short m_value;
             static inline unsigned short s_type_value = 0;
+            static std::shared_mutex& registry_mutex()
+            {
+                static std::shared_mutex mutex;
+                return mutex;
+            }
             static std::unordered_map<std::string, type>& typemap_nc()
             {
                 static std::unordered_map<std::string, type> map = std::unordered_map<std::string, type>();
@@ -56,6 +64,9 @@ namespace sqf
 
             std::string_view to_string() const
             {
+                // names are registered lazily, possibly by another thread creating its own runtime;
+                // the map is node based, the name outlives the lock
+                std::shared_lock<std::shared_mutex> lock(registry_mutex());
                 auto& map = namemap();
                 return { map.at(m_value) };
             }
@@ -83,21 +94,26 @@ namespace sqf
         class type::extend : public type
         {
         private:
-            static inline unsigned short s_local_type_value = 0;
+            static inline std::atomic<unsigned short> s_local_type_value = 0;
         public:
             extend() : type()
             {
-                if (s_local_type_value == 0)
+                // ids are handed out on first use; runtimes may be created on several threads
+                auto value = s_local_type_value.load(std::memory_order_acquire);
+                if (value == 0)
                 {
-                    s_local_type_value = ++s_type_value;
-                    m_value = s_local_type_value;
-                    typemap_nc()[T::name()] = *this;
-                    namemap_nc()[*this] = T::name();
+                    std::unique_lock<std::shared_mutex> lock(registry_mutex());
+                    value = s_local_type_value.load(std::memory_order_relaxed);
+                    if (value == 0)
+                    {
+                        value = ++s_type_value;
+                        m_value = value;
+                        typemap_nc()[T::name()] = *this;
+                        namemap_nc()[*this] = T::name();
+                        s_local_type_value.store(value, std::memory_order_release);
+                    }
                 }
-                else
-                {
-                    m_value = s_local_type_value;
-                }
+                m_value = value;
             }
         };
     }
